@@ -26,7 +26,7 @@ from __future__ import annotations
 import ast
 import itertools
 
-from .absint import (Interp, Sym, Lin, Obj, Raised, Split, Bound, CondV, LambdaV, Comp, BufV, BytesV,
+from .absint import (Interp, Sym, Lin, Obj, Raised, Split, Bound, CondV, LambdaV, Comp, BufV, BytesV, _ModuleCtx,
                      _Break, _Continue, _Return, _int, _pyconst, show)
 from .bits import Bits
 from .consts import Ref, Unknown, is_unknown
@@ -586,6 +586,23 @@ class SymInterp(Interp):
             return None
         return super().exec_stmt(s, env, func)
 
+    def e_Dict(self, e, env, func):
+        if all(k is not None for k in e.keys):
+            return super().e_Dict(e, env, func)
+        d = {}
+        for k, v in zip(e.keys, e.values):
+            if k is None:
+                sub = self.eval(v, env, func)
+                if not isinstance(sub, dict):
+                    return Sym("expr", ast.unparse(e)[:80])
+                d.update(sub)
+            else:
+                try:
+                    d[_int(self.eval(k, env, func))] = self.eval(v, env, func)
+                except TypeError:
+                    return Sym("expr", ast.unparse(e)[:80])
+        return d
+
     def e_DictComp(self, e, env, func):
         if len(e.generators) != 1:
             return Sym("expr", ast.unparse(e)[:80])
@@ -757,6 +774,17 @@ class SymInterp(Interp):
                         v = self.folder.global_(mod, attr)
                         if not is_unknown(v):
                             return v
+                        # not foldable as a literal: interpret the module-level initialiser
+                        cache = self.__dict__.setdefault("_modconst", {})
+                        ck = (mod.relpath, attr)
+                        if ck not in cache:
+                            cache[ck] = None
+                            try:
+                                cache[ck] = self.eval(r[2], {}, _ModuleCtx(r[1]))
+                            except (Split, Raised):
+                                cache[ck] = None
+                        if cache[ck] is not None:
+                            return cache[ck]
         return NotImplemented
 
     def _module(self, base, func):
@@ -966,6 +994,13 @@ class SymInterp(Interp):
         if not isinstance(reverse, bool):
             raise AnalysisError("%s: sorted(reverse=<non-constant>)" % func.loc(node))
         keys = [x if keyf is None else self.call_value(keyf, None, [x], {}, node, {}, func) for x in seq]
+        pk = [k[0] if isinstance(k, tuple) and k else k for k in keys]
+        if all(_pyconst(_int(k)) and not isinstance(k, bool) for k in pk) and len({type(_int(k)) for k in pk}) <= 1 and len(set(map(_int, pk))) == len(pk):
+            # distinct constant (leading) keys decide the order outright
+            order = sorted(range(len(seq)), key=lambda i: _int(pk[i]), reverse=reverse)
+            return [seq[i] for i in order]
+        if len(seq) > 5:
+            raise AnalysisError("%s: sorted() of %d symbolic keys" % (func.loc(node), len(seq)))
         out = []
         for x, kx in zip(seq, keys):
             pos = len(out)
@@ -1088,6 +1123,15 @@ class SymInterp(Interp):
                 return SetV(seq) if seq is not None else SetV([Sym("extend", args[0])])
             if name == "dict" and not args:
                 return dict(kwargs or {})
+            if name == "dict" and len(args) == 1 and not kwargs:
+                if isinstance(args[0], dict):
+                    return dict(args[0])
+                seq = self.concrete_iter(args[0])
+                if seq is not None and all(isinstance(x, (tuple, list)) and len(x) == 2 for x in seq):
+                    try:
+                        return {_int(k_): v_ for k_, v_ in seq}
+                    except TypeError:
+                        pass
             if name in ("bytearray", "bytes") and not args:
                 return CatV()
             if name == "list":
@@ -1118,7 +1162,7 @@ class SymInterp(Interp):
                     return any(vals) if name == "any" else all(vals)
             if name == "sorted" and args:
                 seq = self.concrete_iter(args[0])
-                if seq is not None and not any(is_marker(x) for x in seq) and len(seq) <= 5 and set(kwargs or {}) <= {"key", "reverse"}:
+                if seq is not None and not any(is_marker(x) for x in seq) and set(kwargs or {}) <= {"key", "reverse"}:
                     return self._sorted(list(seq), (kwargs or {}).get("key"), (kwargs or {}).get("reverse", False), node, func)
                 return Sym(name, *args)
             if name == "reversed" and args:
